@@ -1236,9 +1236,13 @@ def D5(m, R):
             R.viol(f, foreign[0], 'a match can be skipped / the scan ended under `%s`, a condition other than count: not every one of the first count matches of re.finditer '
                                   'is formatted (and skipped ones do not use up count)' % short(foreign[0].test), construct=name + ' match filter')
             continue
-        for region, rank in (('<0', -1), ('=0', 0), ('>0', 1)):
-            cons = '%s count%s' % (name, region)
+        for region, rank, empty in [(r_, k_, e_) for e_ in (False, True) for r_, k_ in (('<0', -1), ('=0', 0), ('>0', 1))]:
+            cons = '%s count%s%s' % (name, region, ' (empty match)' if empty else '')
             calls, decs, others = [], [], []
+            # an empty match (start == end) is a match like any other: it uses up count; formatting an empty range changes nothing
+            order_ = {'count': rank, '0': 0, mv + '.start(0)': 100, mv + '.start()': 100, mv + '.end(0)': 100 if empty else 101,
+                      mv + '.end()': 100 if empty else 101, mv + '.group(0)': not empty, mv + '.group()': not empty,
+                      mv + '[0]': not empty}
 
             def visit(st):
                 if isinstance(st, ast.Expr) and isinstance(st.value, ast.Call) and isinstance(st.value.func, ast.Attribute) \
@@ -1249,7 +1253,7 @@ def D5(m, R):
                 else:
                     others.append(st)
             try:
-                out = run_block(lp.body, order_valuation({'count': rank, '0': 0}), visit)
+                out = run_block(lp.body, order_valuation(order_), visit)
             except Undecided as ex:
                 R.undecided(f, lp, str(ex), construct=cons)
                 continue
@@ -1260,7 +1264,7 @@ def D5(m, R):
                 if calls:
                     problems.append('count == 0 still formats a match')
             else:
-                if len(calls) != 1:
+                if len(calls) != 1 and not (empty and not calls):
                     problems.append('%d apply/remove calls for one match (expected exactly 1)' % len(calls))
                 if out != 'fall':
                     problems.append('iteration ends with %s' % out)
